@@ -68,6 +68,16 @@ package xmlenc
 //@ contract (CBC).Decrypt
 //@ requires[cfg] el: ciphertextEl != nil
 //@ requires[cfg] cipher: e.cipher != nil
+//@ -- framing, the mirror image of Encrypt: a key of exactly the cipher's size keys the block cipher; the first block of
+//@ -- the cipher value is the IV and everything after it is decrypted as a whole; the result is that plaintext with the
+//@ -- xmlenc padding stripped (with the padding lemma and CBC decrypt-after-encrypt = identity this is the round trip)
+//@ assert@call[C10] field:xmlenc.CBC.cipher #1 (fn func([]byte) (cipher.Block, error), k []byte) uses keyBuf []byte keys_cipher_with_given_key:
+//@    sameSlice(k, keyBuf) && len(k) == e.keySize
+//@ assert@call[C10] NewCBCDecrypter #1 (b cipher.Block, ivArg []byte) uses block cipher.Block, iv []byte, ciphertext []byte first_block_is_iv:
+//@    b == block && sameSlice(ivArg, iv) && len(iv) == b.BlockSize() && cap(iv) == cap(ciphertext)+len(iv)
+//@ assert@call[C10] CryptBlocks #1 (mode cipher.BlockMode, dst []byte, src []byte) uses ciphertext []byte, plaintext []byte decrypts_all_after_iv:
+//@    sameSlice(src, ciphertext) && sameSlice(dst, plaintext) && len(dst) == len(src)
+//@ assert@call[C10] stripPadding #1 (buf []byte) uses plaintext []byte strips_padding_of_plaintext: sameSlice(buf, plaintext)
 
 //@ contract (GCM).Decrypt
 //@ requires[cfg] el: ciphertextEl != nil
